@@ -74,6 +74,7 @@ static int run(void)
   struct S_class_2eFIX8_3a_3aMessage *m = vf_factory(&W_ctx, &W_from, 1, 0);      /* checksum verification off: not the subject here */
   int thrown = __vf_exc_pending; int kind = thrown ? W_exc_kind() : -1; __vf_exc_pending = 0;
   cx_accept = !thrown; cx_exc = (uint8_t)kind;
+  VF_REACH();               /* the decoder returned (accepted or threw): reachable whatever the verdict of the assertions below */
   VF_ASSERT(!W_rec_overflow && !TK_bad, "C06: the decoder never tokenizes inside a data value (tokenizer cut consistent)");
 #ifdef EXPECT_REJECT      /* boundary harness (C03): a data length that does not fit the decoder's value buffer must be refused, with no memory error */
   VF_ASSERT(thrown, "C03: a data field whose length does not fit the decoder's value buffer is refused");
